@@ -27,7 +27,8 @@
  *   chk <name> <P>...                     -> ok 0|-1 ...       ec_point_check_affine (0 = on curve)
  * Before every library call 32 KiB of stack are filled with 0xA5: locals the library forgets to initialise then hold
  * a defined non-zero pattern instead of whatever the previous call left there (results become reproducible).
- * A non-zero return code of the library is reported in place of the point as "err<rc>". */
+ * A non-zero return code of the library is reported in place of the point as "err<rc>".  Every "ok" line ends with " ;"
+ * (a line without it was cut short by a crash in the middle of the row). */
 #include <sys/param.h>
 #include <sys/types.h>
 #include <inttypes.h>
@@ -198,13 +199,13 @@ int main(void) {
 			printf("\n");
 			continue;
 		}
-		if (crc != 0) { printf("ok curve-err%d\n", crc); continue; }
+		if (crc != 0) { printf("ok curve-err%d ;\n", crc); continue; }
 		size_t dbl_bits = EC_CURVE_CALC_BITS_DBL(cv);
 		if (!strcmp(op, "validate")) {
 			int w = -1, vrc;
 			dirty_stack();
 			vrc = ec_curve_validate(cv, &w);
-			printf("ok %d %d\n", vrc, w);
+			printf("ok %d %d ;\n", vrc, w);
 			continue;
 		}
 		if (!strcmp(op, "chk")) {
@@ -214,7 +215,7 @@ int main(void) {
 				pt_from_str(&a, dbl_bits, tok[i]);
 				printf(" %d", a.infinity ? 0 : ec_point_check_affine(&a, cv));
 			}
-			printf("\n");
+			printf(" ;\n");
 			continue;
 		}
 		if (nt < 3) { printf("FATAL short line\n"); exit(3); }
@@ -314,7 +315,7 @@ int main(void) {
 		} else {
 			printf(" FATAL unknown op %s\n", op); exit(3);
 		}
-		printf("\n");
+		printf(" ;\n");
 	}
 	return 0;
 }
